@@ -608,6 +608,7 @@ func (d *driver) cfgEvent(sc *Scenario) map[string]any {
 		}
 		fl = append(fl, map[string]any{"name": f.Name, "store": f.Store, "prefix": f.Prefix, "accessFwd": f.AccessFwd,
 			"idHeader": f.IDHeader, "idPreamble": f.IDPreamble, "atHeader": f.ATHeader, "atPreamble": f.ATPreamble,
+			"idHeaderL": strings.ToLower(f.IDHeader), "atHeaderL": strings.ToLower(f.ATHeader),
 			"logout": f.Logout, "abs": f.Abs, "idle": f.Idle, "scopes": scopes, "ownQuery": ownQ,
 			"discovery": f.Discovery, "idp": idp, "cookieName": cookieName(&f), "afterDeny": f.After == "deny", "secretRef": f.SecretRef != ""})
 	}
@@ -642,9 +643,14 @@ func (d *driver) arrive(kind string, info map[string]any) *gate {
 		dir := Directive{Ans: c.defAns}
 		return &gate{check: c, kind: kind, info: info, dir: dir}
 	}
-	d.mu.Lock()
-	c := d.cur
-	d.mu.Unlock()
+	// the check is the one the caller identified (context value, code, refresh token); a call on a detached context belongs
+	// to the check the scheduler is running
+	c, _ := info["check"].(*checkRun)
+	if c == nil {
+		d.mu.Lock()
+		c = d.cur
+		d.mu.Unlock()
+	}
 	if c == nil {
 		panic("verif: gate reached with no running check")
 	}
@@ -654,19 +660,43 @@ func (d *driver) arrive(kind string, info map[string]any) *gate {
 	return g
 }
 
-// wait blocks until the running check reaches its next gate or finishes.
+// wait blocks until the running check reaches its next gate or finishes. A check that does neither for a while may be
+// waiting for something a parked check holds (a lock the service takes per session, for instance): the schedule asked
+// for cannot be realised by this implementation, so the parked checks are run to their end, oldest first, and the
+// waiting goes on. What the monitors judge is what was recorded, in the order it happened.
 func (d *driver) wait(c *checkRun) {
-	select {
-	case g := <-d.arrived:
-		if g.check != c {
-			panic("verif: gate from a check that is not running")
+	began := time.Now()
+	for {
+		if c.pending != nil {
+			return // it reached a gate while another check was being run to its end
 		}
-		c.pending = g
-	case <-c.done:
-		c.pending = nil
-		d.finishCheck(c)
-	case <-time.After(60 * time.Second):
-		panic("verif: check " + c.id + " neither reached a gate nor finished within 60s (deadlock?)")
+		select {
+		case g := <-d.arrived:
+			if g.check == c {
+				c.pending = g
+				return
+			}
+			g.check.pending = g // a check that had been waiting behind this one reached a gate of its own: it is parked there now
+		case <-c.done:
+			c.pending = nil
+			d.finishCheck(c)
+			return
+		case <-time.After(1500 * time.Millisecond):
+			var parked *checkRun
+			for _, o := range d.checks {
+				if o != c && o.pending != nil && !o.fin && (parked == nil || o.n < parked.n) {
+					parked = o
+				}
+			}
+			if parked != nil {
+				d.rec.emit(map[string]any{"ev": "noop", "c": "blocked:" + c.id + ":behind:" + parked.id})
+				d.finish(parked)
+				continue
+			}
+			if time.Since(began) > 60*time.Second {
+				panic("verif: check " + c.id + " neither reached a gate nor finished within 60s (deadlock?)")
+			}
+		}
 	}
 }
 
@@ -741,9 +771,9 @@ func (d *driver) start(st *Step) *checkRun {
 			}
 		}()
 		if d.checkFn != nil {
-			c.resp, c.err = d.checkFn(context.Background(), req)
+			c.resp, c.err = d.checkFn(context.WithValue(context.Background(), checkKey{}, c), req)
 		} else {
-			c.resp, c.err = e.replicas[c.r%len(e.replicas)].Check(context.Background(), req)
+			c.resp, c.err = e.replicas[c.r%len(e.replicas)].Check(context.WithValue(context.Background(), checkKey{}, c), req)
 		}
 	}()
 	d.wait(c)
@@ -809,7 +839,7 @@ func (d *driver) prepare(st *Step) (*checkRun, *envoy.CheckRequest) {
 		kind = "app"
 	}
 	ev := map[string]any{"ev": "req", "n": c.n, "c": c.id, "b": st.B, "f": f.Name, "kind": kind, "cookie": cookieSym,
-		"states": []any{}, "codes": []any{}, "url": "none", "qshape": "none", "expect": st.Expect, "shape": "none",
+		"states": []any{}, "codes": []any{}, "url": "none", "qshape": "none", "lenientQuery": false, "expect": st.Expect, "shape": "none",
 		"cookieVia": ifs(st.CookieAs != "" && st.CookieAs != f.Name, "renamed", "own")}
 	switch kind {
 	case "logout":
@@ -862,6 +892,7 @@ func (d *driver) prepare(st *Step) (*checkRun, *envoy.CheckRequest) {
 			pendingCode = codeVal
 		}
 		ev["qshape"] = ifs(st.QShape == "", "ok", st.QShape)
+		ev["lenientQuery"] = st.QShape == "pctzz" || st.QShape == "semicolon"
 	default:
 		idx := st.URL
 		if idx < 0 || idx >= len(urlPool) {
@@ -986,9 +1017,11 @@ func callbackQuery(shape, st, code, stSym, codeSym string) (string, []any, []any
 	case "noQuery":
 		return "\x00", []any{}, []any{}
 	case "pctzz":
-		return "state=" + e(st) + "&code=" + e(code) + "&x=%zz", []any{}, []any{}
+		// a foreign parameter with a bad escape: a strict parser sees nothing, a lenient one sees state and code (lenientQuery)
+		return "state=" + e(st) + "&code=" + e(code) + "&x=%zz", one(stSym), one(codeSym)
 	case "semicolon":
-		return "state=" + e(st) + ";code=" + e(code), []any{}, []any{}
+		// ';' as separator: a strict parser sees nothing, lenient ones see state and code, or one parameter with a strange value
+		return "state=" + e(st) + ";code=" + e(code), append(one(stSym), "bogus"), one(codeSym)
 	case "fragment":
 		return "state=" + e(st) + "&code=" + e(code) + "#state=bogus", one(stSym), one(codeSym)
 	case "encodedKeys":
@@ -1072,7 +1105,7 @@ func (d *driver) describe(c *checkRun, f *FilterSpec, ev map[string]any) {
 			} else if s, ok := d.rec.lookup("at", v); ok {
 				sym, pre, forwardable = s, "", true
 			}
-			up = append(up, map[string]any{"k": k, "pre": pre, "tok": sym,
+			up = append(up, map[string]any{"k": k, "kl": strings.ToLower(k), "pre": pre, "tok": sym,
 				"append": h.GetAppend().GetValue() || h.GetAppendAction() != 0 && h.GetAppendAction().String() != "OVERWRITE_IF_EXISTS_OR_ADD"})
 			if forwardable {
 				allow[tok] = true
@@ -1081,24 +1114,12 @@ func (d *driver) describe(c *checkRun, f *FilterSpec, ev map[string]any) {
 		}
 		sort.Slice(up, func(i, j int) bool { return up[i].(map[string]any)["k"].(string) < up[j].(map[string]any)["k"].(string) })
 		ev["upstream"] = up
+		// what an OK answer ADDS to the upstream request besides headers: query parameters. (Headers to remove add nothing;
+		// response headers go to the browser and are scanned for secrets like every answer; dynamic metadata and the status
+		// message stay inside Envoy.)
 		extra := []any{}
-		if len(ok.GetHeadersToRemove()) > 0 {
-			extra = append(extra, "headersToRemove")
-		}
-		if len(ok.GetResponseHeadersToAdd()) > 0 {
-			extra = append(extra, "responseHeadersToAdd")
-		}
 		if len(ok.GetQueryParametersToSet()) > 0 {
 			extra = append(extra, "queryParametersToSet")
-		}
-		if len(ok.GetQueryParametersToRemove()) > 0 {
-			extra = append(extra, "queryParametersToRemove")
-		}
-		if ok.GetDynamicMetadata() != nil || r.GetDynamicMetadata() != nil {
-			extra = append(extra, "dynamicMetadata")
-		}
-		if r.GetStatus().GetMessage() != "" {
-			extra = append(extra, "statusMessage")
 		}
 		ev["okExtra"] = extra
 		// whatever is outside the upstream header values must be marker-free
@@ -1134,7 +1155,7 @@ func (d *driver) describe(c *checkRun, f *FilterSpec, ev map[string]any) {
 			cookies = append(cookies, ck)
 		}
 	}
-	ev["noCache"] = cc && pragma
+	ev["noCache"] = cc || pragma // "carries no-cache directives": Cache-Control (HTTP/1.1) or Pragma (HTTP/1.0) - either says it
 	ev["setCookie"] = cookies
 	ev["leaks"] = strs(d.rec.leaks(ser, nil))
 	// ghost: an authorize answer that issues a session
